@@ -172,6 +172,12 @@ Fixpoint blist_eqb (a b : list bool) : bool :=
 
 Definition case := (list flow * list bool * list (txn * list Z))%type.
 
+(* abbreviations the harness uses to keep the case files small *)
+Definition uf (id : Z) (u : String.string) : flow := mkFlow id 0 (bs u) [] [] [] [].
+Definition rq (u : String.string) : txn := mkTxn false (bs u) [71; 69; 84] [] [] 0.      (* bare GET request *)
+Definition rs (u : String.string) : txn := mkTxn true (bs u) [71; 69; 84] [] [] 200.    (* its 200 response *)
+Definition ob (x : txn) (sel : list Z) : txn * list Z := (x, sel).
+
 (* None = the implementation's observables equal the model's; otherwise the
    model's load flags and, per transaction, its sorted selection *)
 Definition run_case (k : case) : option (list bool * list (list Z)) :=
